@@ -23,7 +23,7 @@ func init() {
 			"expiry from Walk().ExpireAt() is checked against [t0+T-|T|J/2-eps, t1+T+|T|J/2+eps] with wall-clock brackets t0/t1 around the Write; reads before/after expiry checked; " +
 			"per batch a distribution block (2000 writes each for J=1.0 and J=default) must populate both halves and both outer deciles of the jitter interval; " +
 			"distinct_nontrivial = distinct (backend, config class, ctx class, jitter class, magnitude decade) cells with a finite effective TTL",
-		Required: []string{"restored.checked", "trait_ttl.checked", "writes", "writes.store", "writes.overwrite", "via_failover.writes", "via_failover.after_failed_build", "bounds.checked", "unlimited.checked", "read.hit.checked", "read.expired.checked", "dist.blocks"},
+		Required: []string{"restored.checked", "trait_ttl.checked", "writes", "writes.store", "writes.overwrite", "via_failover.writes", "via_failover.after_failed_build", "bounds.checked", "unlimited.checked", "read.hit.checked", "read.expired.checked", "dist.blocks", "via_failover.over_stale_entry"},
 		Assumptions: []string{
 			"wall clock (time.Now().UnixNano) is not stepped backwards/forwards during a run",
 			"eps = 2ns + |T|*2^-52 covers float64 rounding of the jitter product",
@@ -362,9 +362,17 @@ func c10ViaFailover(b *Batch, idx int) {
 	jit := []float64{-1, 0, 1.0}[rng.Intn(3)]
 	be := newBackend(p[1], cache.Config{ExpirationJitter: jit})
 	fut := []time.Duration{0, time.Second, -1}[rng.Intn(3)]
+	// half of the cases: the key already holds an expired value, so the frontend re-stores it temporarily (with UpdateTTL)
+	// before the synchronous build; the final store must still carry the caller's TTL
+	stale := rng.Intn(2) == 0
+	if stale {
+		if err := be.Write(cache.WithTTL(bg, -time.Second-randDuration(rng)%time.Hour, false), []byte("ok"), "old"); err != nil {
+			stale = false
+		}
+	}
 	var get func(ctx context.Context, key string, fail bool) error
 	if p[0] == "FailoverOf" {
-		f := cache.NewFailoverOf[string](cache.FailoverConfigOf[string]{Backend: be.(ofAdapter).m, FailedUpdateTTL: fut}.Use)
+		f := cache.NewFailoverOf[string](cache.FailoverConfigOf[string]{Backend: be.(ofAdapter).m, FailedUpdateTTL: fut, SyncUpdate: stale}.Use)
 		get = func(ctx context.Context, key string, fail bool) error {
 			_, err := f.Get(ctx, []byte(key), func(context.Context) (string, error) {
 				if fail {
@@ -382,7 +390,7 @@ func c10ViaFailover(b *Batch, idx int) {
 		case syAdapter:
 			rw = a.m
 		}
-		f := cache.NewFailover(cache.FailoverConfig{Backend: rw, FailedUpdateTTL: fut}.Use)
+		f := cache.NewFailover(cache.FailoverConfig{Backend: rw, FailedUpdateTTL: fut, SyncUpdate: stale}.Use)
 		get = func(ctx context.Context, key string, fail bool) error {
 			_, err := f.Get(ctx, []byte(key), func(context.Context) (interface{}, error) {
 				if fail {
@@ -406,7 +414,10 @@ func c10ViaFailover(b *Batch, idx int) {
 	if nFail > 0 {
 		b.R.Count("via_failover.after_failed_build", 1)
 	}
-	desc := map[string]interface{}{"api": p[0], "backend": p[1], "T": T.String(), "jitter": jit, "failed_builds_before": nFail, "fut": fut.String()}
+	if stale {
+		b.R.Count("via_failover.over_stale_entry", 1)
+	}
+	desc := map[string]interface{}{"api": p[0], "backend": p[1], "T": T.String(), "jitter": jit, "failed_builds_before": nFail, "fut": fut.String(), "stale_before": stale}
 	fail := func(what, msg string) {
 		b.R.Violate(b, idx, "C10:"+p[0]+":via-failover:"+what, fmt.Sprintf("%s: %s %v", what, msg, desc), desc)
 	}
@@ -440,5 +451,5 @@ func c10ViaFailover(b *Batch, idx int) {
 	if float64(E-t0-int64(T)) < -hw || float64(E-t1-int64(T)) > hw {
 		fail("bounds", fmt.Sprintf("entry built with context TTL %v expires at t+%v, allowed deviation %v", T, time.Duration(E-t0), time.Duration(hw)))
 	}
-	b.R.Nontrivial(fmt.Sprintf("via-failover/%s/%s/jit=%v/fails=%d/fut=%v", p[0], p[1], jit, nFail, fut))
+	b.R.Nontrivial(fmt.Sprintf("via-failover/%s/%s/jit=%v/fails=%d/fut=%v/stale=%v", p[0], p[1], jit, nFail, fut, stale))
 }
